@@ -181,7 +181,7 @@ def wild_mutation(rng, gen, old):
         elif r < 0.7:
             for _, _, ms in m["services"]:
                 for me in ms:
-                    if me["excs"]:
+                    if me["excs"] and gen.visible(side, "main")["exception"]:
                         e = dict(rng.choice(me["excs"]))
                         e["name"] = gen.fresh("de")
                         e["type"] = rng.choice(gen.visible(side, "main")["exception"])
